@@ -169,7 +169,7 @@ std::uint64_t vfh_num_cases(bool thorough)
 #ifdef VF_SMALL_N
     return thorough ? 210 : 42;
 #else
-    return thorough ? 420 : 84;
+    return thorough ? 840 : 84;
 #endif
 }
 
